@@ -9,5 +9,6 @@ func genC01(p *pkgInfo, l *leanFile) {
 		p.emitSkeleton(l, f)
 	}
 	l.pf("def certIssueLockOp : String := %s\n", leanStr(p.constString("certIssueLockOp")))
+	l.pf("/-- the name of storeTx's storage parameter (its calls appear as `<name>.Store` … in the skeleton) -/\ndef storeTxParam : String := %s\n", leanStr(paramOfType(p.funcs["storeTx"], "Storage")))
 	l.pf("\nend CM.Gen.C01\n")
 }
